@@ -83,6 +83,7 @@ contract(INDEX, '_IndexGOMixin.extend', key='IndexGO.extend', assumed=True, modi
              'forall_in(0, old(len(self.labels)), lambda i: at(self.labels, i) == at(old(self.labels), i))',
              'forall_in(old(len(self.labels)), len(self.labels), lambda i: at(self.labels, i) == at(values.labels, i - old(len(self.labels))))'])
 contract(INDEX, 'Index.equals', key='Index.equals', assumed=True,
+    backed_by='the consequence used here (equal => equally many labels) is one conjunct of the content predicate proved on the real method as EqIndex.equals (specs/t2_equals.py)',
     params=dict(self='Index', other='Index'), order=['self', 'other'], result='bool',
     ensures=['implies(result, len(self.labels) == len(other.labels))'])      # equal indices have equally many labels (the only consequence used)
 contract(FRAME, 'Frame.reindex', key='Frame.reindex', assumed=True,
